@@ -429,4 +429,195 @@ theorem rma_shift_window (x : Ctx F) (d : Nat) (p : Int) (input : String) (hp : 
           rfl
         · simp only [hrp, Bool.false_eq_true, if_false]
 
+/-! ### `ShiftOKW` instances of the windowed kinds (no state condition is needed once the whole
+look-back is retained) -/
+
+/-- SMA: `max 1 period` predecessors (the running update reads `index - period`) -/
+def smaShiftOKW (ind : Ind F) (p : Int) (input : String) (hk : ind.kind = .sma p input) (hp : 1 ≤ p) :
+    ShiftOKW ind (max 1 p.toNat) :=
+  ShiftOKW.ofUncond ind _ (by omega) (by
+    intro x d hd hi
+    rw [hk]
+    exact sma_shift_window x d p input hp hi (by omega))
+
+/-- ROC: `max 1 period` predecessors (reads `index - period`) -/
+def rocShiftOKW (ind : Ind F) (p : Int) (input : String) (hk : ind.kind = .roc p input) (hp : 0 ≤ p) :
+    ShiftOKW ind (max 1 p.toNat) :=
+  ShiftOKW.ofUncond ind _ (by omega) (by
+    intro x d hd hi
+    rw [hk]
+    exact roc_shift_window x d p input hp hi (by omega) (by omega))
+
+/-- WMA: `max 1 (period - 1)` predecessors -/
+def wmaShiftOKW (ind : Ind F) (p : Int) (input : String) (hk : ind.kind = .wma p input) (hp : 1 ≤ p) :
+    ShiftOKW ind (max 1 (p - 1).toNat) :=
+  ShiftOKW.ofUncond ind _ (by omega) (by
+    intro x d hd hi
+    rw [hk]
+    exact wma_shift_window x d p input hp (by omega) hi (by omega))
+
+/-- VWMA: `max 1 (period - 1)` predecessors -/
+def vwmaShiftOKW (ind : Ind F) (p : Int) (hk : ind.kind = .vwma p) (hp : 1 ≤ p) :
+    ShiftOKW ind (max 1 (p - 1).toNat) :=
+  ShiftOKW.ofUncond ind _ (by omega) (by
+    intro x d hd hi
+    rw [hk]
+    exact vwma_shift_window x d p hp (by omega) hi (by omega))
+
+/-- EMA, seeded or not: `max 1 (period - 1)` predecessors (the start-up window) -/
+def emaShiftOKW (ind : Ind F) (p : Int) (input : String) (sm : Num F) (hk : ind.kind = .ema p input sm)
+    (hp : 1 ≤ p) : ShiftOKW ind (max 1 (p - 1).toNat) :=
+  ShiftOKW.ofUncond ind _ (by omega) (by
+    intro x d hd hi
+    rw [hk]
+    exact ema_shift_window x d p input sm hp (by omega) hi (by omega))
+
+/-- RMA, seeded or not: `max 1 (period - 1)` predecessors -/
+def rmaShiftOKW (ind : Ind F) (p : Int) (input : String) (hk : ind.kind = .rma p input) (hp : 1 ≤ p) :
+    ShiftOKW ind (max 1 (p - 1).toNat) :=
+  ShiftOKW.ofUncond ind _ (by omega) (by
+    intro x d hd hi
+    rw [hk]
+    exact rma_shift_window x d p input hp (by omega) hi (by omega))
+
+/-! ### the whole schedule, per kind -/
+
+/-- the schedule theorem from an unconditional `ShiftOKW` -/
+theorem twin_schedule_ofW (ind : Ind F) (hl : IsLeaf ind) (K : Contract ind) {L : Nat} (S : ShiftOKW ind L)
+    (hS : ∀ cs k, S.P cs k)
+    (life : Int) (init : List (Candle F)) (chunks : List (List (Candle F)))
+    (hp : ∀ c ∈ init ++ chunks.flatten, Plain c)
+    (hinit : trimCandles (some life) init = .ok init)
+    (hret : RetainsFrom L life init init.length chunks) :
+    ∃ d, candlesOf (runIndicator ind (cfgLifeOnly life) init chunks)
+        = (candlesOf (runIndicator ind {} init chunks)).map (·.drop d) :=
+  twin_scheduleW ind hl K S (fun _ => True) (fun a ch _ _ => hS _ _)
+    (fun _ _ _ _ _ _ => trivial) life init chunks hp hinit (fun _ _ => trivial) hret
+
+/-- **SMA over a whole schedule**: `max 1 period` candles from before each popping append retained -/
+theorem twin_schedule_sma (ind : Ind F) (hl : IsLeaf ind) (K : Contract ind) (p : Int) (input : String)
+    (hk : ind.kind = .sma p input) (hper : 1 ≤ p)
+    (life : Int) (init : List (Candle F)) (chunks : List (List (Candle F)))
+    (hp : ∀ c ∈ init ++ chunks.flatten, Plain c)
+    (hinit : trimCandles (some life) init = .ok init)
+    (hret : RetainsFrom (max 1 p.toNat) life init init.length chunks) :
+    ∃ d, candlesOf (runIndicator ind (cfgLifeOnly life) init chunks)
+        = (candlesOf (runIndicator ind {} init chunks)).map (·.drop d) :=
+  twin_schedule_ofW ind hl K (smaShiftOKW ind p input hk hper) (fun _ _ => trivial) life init chunks hp hinit hret
+
+/-- **ROC over a whole schedule**: `max 1 period` candles retained -/
+theorem twin_schedule_roc (ind : Ind F) (hl : IsLeaf ind) (K : Contract ind) (p : Int) (input : String)
+    (hk : ind.kind = .roc p input) (hper : 0 ≤ p)
+    (life : Int) (init : List (Candle F)) (chunks : List (List (Candle F)))
+    (hp : ∀ c ∈ init ++ chunks.flatten, Plain c)
+    (hinit : trimCandles (some life) init = .ok init)
+    (hret : RetainsFrom (max 1 p.toNat) life init init.length chunks) :
+    ∃ d, candlesOf (runIndicator ind (cfgLifeOnly life) init chunks)
+        = (candlesOf (runIndicator ind {} init chunks)).map (·.drop d) :=
+  twin_schedule_ofW ind hl K (rocShiftOKW ind p input hk hper) (fun _ _ => trivial) life init chunks hp hinit hret
+
+/-- **WMA over a whole schedule**: `max 1 (period - 1)` candles retained -/
+theorem twin_schedule_wma (ind : Ind F) (hl : IsLeaf ind) (K : Contract ind) (p : Int) (input : String)
+    (hk : ind.kind = .wma p input) (hper : 1 ≤ p)
+    (life : Int) (init : List (Candle F)) (chunks : List (List (Candle F)))
+    (hp : ∀ c ∈ init ++ chunks.flatten, Plain c)
+    (hinit : trimCandles (some life) init = .ok init)
+    (hret : RetainsFrom (max 1 (p - 1).toNat) life init init.length chunks) :
+    ∃ d, candlesOf (runIndicator ind (cfgLifeOnly life) init chunks)
+        = (candlesOf (runIndicator ind {} init chunks)).map (·.drop d) :=
+  twin_schedule_ofW ind hl K (wmaShiftOKW ind p input hk hper) (fun _ _ => trivial) life init chunks hp hinit hret
+
+/-- **VWMA over a whole schedule**: `max 1 (period - 1)` candles retained -/
+theorem twin_schedule_vwma (ind : Ind F) (hl : IsLeaf ind) (K : Contract ind) (p : Int)
+    (hk : ind.kind = .vwma p) (hper : 1 ≤ p)
+    (life : Int) (init : List (Candle F)) (chunks : List (List (Candle F)))
+    (hp : ∀ c ∈ init ++ chunks.flatten, Plain c)
+    (hinit : trimCandles (some life) init = .ok init)
+    (hret : RetainsFrom (max 1 (p - 1).toNat) life init init.length chunks) :
+    ∃ d, candlesOf (runIndicator ind (cfgLifeOnly life) init chunks)
+        = (candlesOf (runIndicator ind {} init chunks)).map (·.drop d) :=
+  twin_schedule_ofW ind hl K (vwmaShiftOKW ind p hk hper) (fun _ _ => trivial) life init chunks hp hinit hret
+
+/-- **EMA over a whole schedule, NO seededness assumption**: `max 1 (period - 1)` candles (the
+start-up window) retained -/
+theorem twin_schedule_ema_unseeded (ind : Ind F) (hl : IsLeaf ind) (K : Contract ind) (p : Int)
+    (input : String) (sm : Num F) (hk : ind.kind = .ema p input sm) (hper : 1 ≤ p)
+    (life : Int) (init : List (Candle F)) (chunks : List (List (Candle F)))
+    (hp : ∀ c ∈ init ++ chunks.flatten, Plain c)
+    (hinit : trimCandles (some life) init = .ok init)
+    (hret : RetainsFrom (max 1 (p - 1).toNat) life init init.length chunks) :
+    ∃ d, candlesOf (runIndicator ind (cfgLifeOnly life) init chunks)
+        = (candlesOf (runIndicator ind {} init chunks)).map (·.drop d) :=
+  twin_schedule_ofW ind hl K (emaShiftOKW ind p input sm hk hper) (fun _ _ => trivial) life init chunks hp hinit hret
+
+/-- **RMA over a whole schedule, NO seededness assumption** -/
+theorem twin_schedule_rma_unseeded (ind : Ind F) (hl : IsLeaf ind) (K : Contract ind) (p : Int)
+    (input : String) (hk : ind.kind = .rma p input) (hper : 1 ≤ p)
+    (life : Int) (init : List (Candle F)) (chunks : List (List (Candle F)))
+    (hp : ∀ c ∈ init ++ chunks.flatten, Plain c)
+    (hinit : trimCandles (some life) init = .ok init)
+    (hret : RetainsFrom (max 1 (p - 1).toNat) life init init.length chunks) :
+    ∃ d, candlesOf (runIndicator ind (cfgLifeOnly life) init chunks)
+        = (candlesOf (runIndicator ind {} init chunks)).map (·.drop d) :=
+  twin_schedule_ofW ind hl K (rmaShiftOKW ind p input hk hper) (fun _ _ => trivial) life init chunks hp hinit hret
+
+/-! ### all covered leaf kinds with a look-back: `C15b_FULL` -/
+
+/-- finished candles that must survive each popping trim, per leaf kind (the same table as
+`Hex.C15.lookBack` in HexProps/C15.lean) -/
+def lookBackW : Kind F → Option Nat
+  | .hla | .tr | .obv | .counter .. => some 1
+  | .ema p _ _ | .rma p _ => some (max 1 (p - 1).toNat)
+  | .wma p _ | .vwma p => some (max 1 (p - 1).toNat)
+  | .sma p _ | .roc p _ => some (max 1 p.toNat)
+  | _ => none
+
+/-- **C15, second clause, for every covered leaf kind with a look-back** (HLA, TR, OBV, Counter,
+SMA, ROC, WMA, VWMA, EMA, RMA – the latter two without any seededness assumption): this is the
+statement `Hex.C15.C15b_FULL` (with `cfgLifeOnly` = `C15.cfgLife`, `lookBackW` = `C15.lookBack`). -/
+theorem C15b_full_leaf (k : Kind F) (name : String) (round : Nat) (L : Nat) (hc : Covered name k)
+    (hL : lookBackW k = some L)
+    (life : Int) (init : List (Candle F)) (chunks : List (List (Candle F)))
+    (hp : ∀ c ∈ init ++ chunks.flatten, Plain c) (hinit : trimCandles (some life) init = .ok init)
+    (hret : RetainsFrom L life init init.length chunks) :
+    ∃ d, candlesOf (runIndicator (mkTop k name round) (cfgLifeOnly life) init chunks)
+      = (candlesOf (runIndicator (mkTop k name round) {} init chunks)).map (·.drop d) := by
+  obtain ⟨K⟩ := hc.contract round
+  have hl := hc.isLeaf round
+  cases hc with
+  | hla =>
+    cases hL
+    exact twin_schedule_free _ hl K (by rw [mkTop_kind]; exact .hla) life init chunks hp hinit hret
+  | tr =>
+    cases hL
+    exact twin_schedule_free _ hl K (by rw [mkTop_kind]; exact .tr) life init chunks hp hinit hret
+  | obv =>
+    cases hL
+    exact twin_schedule_free _ hl K (by rw [mkTop_kind]; exact .obv) life init chunks hp hinit hret
+  | counter input cv _ =>
+    cases hL
+    exact twin_schedule_free _ hl K (by rw [mkTop_kind]; exact .counter input cv) life init chunks hp hinit hret
+  | sma p input hper _ _ =>
+    cases hL
+    exact twin_schedule_sma _ hl K p input (mkTop_kind _ _ _) hper life init chunks hp hinit hret
+  | ema p input sm hper _ =>
+    cases hL
+    exact twin_schedule_ema_unseeded _ hl K p input sm (mkTop_kind _ _ _) hper life init chunks hp hinit hret
+  | rma p input hper _ =>
+    cases hL
+    exact twin_schedule_rma_unseeded _ hl K p input (mkTop_kind _ _ _) hper life init chunks hp hinit hret
+  | wma p input hper _ _ =>
+    cases hL
+    exact twin_schedule_wma _ hl K p input (mkTop_kind _ _ _) hper life init chunks hp hinit hret
+  | vwma p hper _ =>
+    cases hL
+    exact twin_schedule_vwma _ hl K p (mkTop_kind _ _ _) hper life init chunks hp hinit hret
+  | roc p input hper _ _ =>
+    cases hL
+    exact twin_schedule_roc _ hl K p input (mkTop_kind _ _ _) hper life init chunks hp hinit hret
+  | hl p => cases hL
+  | aroon p _ => cases hL
+  | donchian p _ => cases hL
+  | amorph a _ => cases hL
+
 end Hex
